@@ -53,6 +53,11 @@ def step (_ : Unit) (ws : List String) : Unit × String :=
     match ctxInit total.toNat! t.toNat! nt.toNat! ns.toNat! d.toNat! with
     | some n => ((), s!"ok {n}")
     | none => ((), "err")
+  | ["dins", m, ss] =>
+    -- ZDICT_insertDictItem (no merge): savings s_0, s_1, .. inserted in this order into a table of m slots; answer = table->pos and the used slots in rank order
+    let es := (if ss == "-" then [] else ss.splitOn ",").zipIdx.map (fun (v, i) => ({ id := i, savings := v.toNat! } : DictItem))
+    let t := insertAll m.toNat! es
+    ((), s!"pos={t.length + 1} items=" ++ (if t.isEmpty then "-" else ",".intercalate (t.map (fun x => s!"{x.id}:{x.savings}"))))
   | _ => ((), "bad-op")
 
 def main : IO Unit := do
